@@ -37,7 +37,7 @@ def datasets(mdl, zero):
 
 def plan(tier, seed):
     cases = []
-    mnames = ["poi1", "poi2", "poi3c", "onoff"] + (["srcr"] if tier == "thorough" else [])
+    mnames = ["poi1", "poi2", "poi3c", "onoff", "srcr"]  # srcr: the POI is not the first parameter
     combos = [("numpy", "scipy")] + ([("numpy", "minuit"), ("pytorch", "scipy"), ("jax", "scipy")] if tier == "thorough" else [("numpy", "minuit")])
     for mn in mnames:
         for be, opt in combos:
@@ -45,6 +45,8 @@ def plan(tier, seed):
                 continue
             for ts in ("qtilde", "q", "q0"):
                 cases.append({"kind": "analytic", "model": mn, "backend": be, "optimizer": opt, "test_stat": ts})
+            if mn in ("poi1", "poi2"):
+                cases.append({"kind": "analytic", "model": mn, "backend": be, "optimizer": opt, "test_stat": "q0", "poi_lower": -3.0})
     for ts in ("qtilde", "q", "q0"):
         for be, opt in (combos[:2] if tier == "quick" else combos):
             cases.append({"kind": "analytic", "model": "onoff", "backend": be, "optimizer": opt, "test_stat": ts, "fix_nuisance": 1.0})
@@ -95,6 +97,8 @@ def analytic(case):
         bounds = m.config.suggested_bounds()
         if ts == "q":
             bounds[pidx] = (-5.0, 10.0)
+        if case.get("poi_lower") is not None:
+            bounds[pidx] = (case["poi_lower"], 10.0)
         extra = {}
         refmdl = mdl
         if case.get("fix_nuisance") is not None:
@@ -111,7 +115,8 @@ def analytic(case):
             for mu in (MUS if ts != "q0" else [1.0]):
                 for dist in ("normal", "clipped_normal"):
                     ctx = dict(model=case["model"], backend=be, optimizer=opt, test_stat=ts, data=main, mu=mu, dist=dist, fix_nuisance=case.get("fix_nuisance"))
-                    ref = R.hypotest_reference(refmdl, mu, data[: refmdl.nmain] if refmdl is not mdl else data, ts, clipped=(dist == "clipped_normal"))
+                    ref = R.hypotest_reference(refmdl, mu, data[: refmdl.nmain] if refmdl is not mdl else data, ts, clipped=(dist == "clipped_normal"),
+                                               bounds=(case["poi_lower"], 10.0) if case.get("poi_lower") is not None else None)
                     try:
                         res = pyhf.infer.hypotest(mu, C.tens(data), m, par_bounds=bounds, test_stat=ts, calc_base_dist=dist, return_tail_probs=True,
                                                   return_expected_set=True, return_calculator=True, **extra)
